@@ -1497,3 +1497,22 @@ def _instance_shorthand_and_deltas(repo, ob, failure):
 
 GENERATORS.insert(0, ("C18.instance.size_includes", _instance_shorthand_and_deltas))
 GENERATORS.insert(0, ("C18.place.position_shorthand", _instance_shorthand_and_deltas))
+
+
+def _one_dimension_beside(repo, ob, failure):
+    """a line given by a width (height) only, or a circle by one dimension, is placed beside its reference by its real size"""
+    import re as _re
+    cases = [('<svg><rect id="a" xy="10 20" wh="30 40"/><line xy="#a|H 5" width="10"/></svg>', r'<line [^>]*>', 'x1="-5" y1="40" x2="5" y2="40"'),
+             ('<svg><rect id="a" xy="10 20" wh="30 40"/><line xy="#a|h 5" height="10"/></svg>', r'<line [^>]*>', 'x1="45" y1="35" x2="45" y2="45"'),
+             ('<svg><rect id="a" xy="10 20" wh="30 40"/><circle xy="#a|H 5" width="10"/></svg>', r'<circle [^>]*>', 'cx="0" cy="40" r="5"')]
+    for doc, pat, want in cases:
+        r = run_svgdx(repo, doc, args=("--no-auto-styles",))
+        m = _re.search(pat, r["out"])
+        if r["rc"] == 0 and m and want not in m.group(0):
+            return {"input": doc, "args": ["--no-auto-styles"], "observed": m.group(0), "expected": "... %s ..." % want}
+    return None
+
+
+GENERATORS.insert(0, ("C09.size.circle_one", _one_dimension_beside))
+GENERATORS.insert(0, ("C09.size.line_one", _one_dimension_beside))
+GENERATORS.insert(0, ("C09.size.circle", _one_dimension_beside))
